@@ -31,11 +31,11 @@ SPEC["theorems"]["DiffcalcProofs.Props.C15"] = THEOREMS
 SYSTEMS = {
     "Cubic": [(4.5,), (3.0,)],
     "Tetragonal": [(4.1, 6.3)],
-    "Hexagonal": [(4.1, 6.3), (3.0, 5.0)],
+    "Hexagonal": [(4.1, 6.3), (3.0, 5.0), (3, 5)],
     "Orthorhombic": [(4.1, 5.2, 6.3), (2.5, 7.0, 11.0)],
-    "Rhombohedral": [(5.0, 75.0), (5.0, 99.0), (4.0, 109.4712), (5.0, 55.0)],
+    "Rhombohedral": [(5, 75), (5.0, 75.0), (5.0, 99.0), (4.0, 109.4712), (5.0, 55.0)],
     "Monoclinic": [(4.1, 5.2, 6.3, 110.0), (5.19, 8.32, 9.6, 80.4), (4.0, 5.0, 6.0, 93.0)],      # obtuse and acute setting of beta
-    "Triclinic": [(4.1, 5.2, 6.3, 80, 95, 100), (5.0, 5.5, 7.0, 91, 102, 88), (7.51, 7.73, 7.0, 106, 113.5, 99.5), (4.0, 5.0, 6.0, 70, 80, 62)],
+    "Triclinic": [(4.1, 5.2, 6.3, 80, 95, 100), (5.0, 5.5, 7.0, 91, 102, 88), (7.51, 7.73, 7.0, 106, 113.5, 99.5), (4.0, 5.0, 6.0, 70, 80, 62), (4, 5, 6, 80, 95, 100)],
 }
 HKL_PATTERNS = [(1, 0, 0), (0, 1, 0), (0, 0, 1), (1, 1, 0), (0, 1, 1), (1, 0, 1), (1, 1, 1), (-1, 2, 0), (2, 0, -1), (0, -1, 2), (0.5, 0, 1.5), (1.2, -0.7, 0.4)]
 
